@@ -250,7 +250,16 @@ class ServerRig:
                         f.script_recv(pl["m"], pl["sz"], plan_of(pl["tail"], self.tls))
                         f.sendplan = [plan_of(pl["out"], self.tls)]
                     try:
-                        self.srv.service()
+                        self.passes = getattr(self, "passes", 0) + 1
+                        if self.passes % 3 == 0:
+                            # the same pass through the per-connection entry point an application may use instead
+                            self.srv.serviceConnects()
+                            for ca in list(self.srv.ixes):
+                                if ca in self.srv.ixes:
+                                    self.srv.serviceReceivesIx(ca)
+                            self.srv.serviceSendsAllIx()
+                        else:
+                            self.srv.service()
                     finally:
                         for f in self.f.values():
                             f.hsplan, f.sendplan, f.budget = [], [], None
